@@ -301,7 +301,8 @@ impl<'a> Gen<'a> {
     }
 
     pub fn workflow(&mut self, id: &str) -> MWorkflow {
-        let ns = 1 + self.rng.below(self.cfg.max_steps as u64);
+        // a workflow without any step is a legal (and rarely tried) shape
+        let ns = if self.rng.below(40) == 0 { 0 } else { 1 + self.rng.below(self.cfg.max_steps as u64) };
         let steps: Vec<MStep> = (0..ns).map(|_| self.step(1)).collect();
         let mut inputs = BTreeMap::new();
         inputs.insert("a".to_string(), json!(0));
